@@ -42,6 +42,8 @@ import itertools
 import json
 import logging
 import multiprocessing
+import os
+import signal
 import socket
 import time
 from enum import Enum
@@ -297,13 +299,23 @@ class Scheduler:
         if proc is None or proc.returncode is not None:
             return
 
-        proc.kill()
+        # The task runs in its own session (see try_handle_task), so signal
+        # the whole process group: children spawned by the script must not
+        # survive a cancelled or timed out task.
+        self._signal_task(proc, signal.SIGKILL)
         await asyncio.sleep(1)
         if proc.returncode is None:
             await asyncio.sleep(10)
             if proc.returncode is None:
-                proc.terminate()
+                self._signal_task(proc, signal.SIGTERM)
         await proc.wait()
+
+    @staticmethod
+    def _signal_task(proc, sig):
+        try:
+            os.killpg(proc.pid, sig)
+        except (ProcessLookupError, PermissionError):
+            proc.send_signal(sig)
 
     async def try_handle_task(self, tid, name, script, working_dir, time_limit, deps):
         proc = None
@@ -328,6 +340,7 @@ class Scheduler:
                 stdout=asyncio.subprocess.PIPE,
                 stderr=asyncio.subprocess.PIPE,
                 cwd=working_dir,
+                start_new_session=True,
             )
             try:
                 logger.debug("task starting")
